@@ -30,6 +30,9 @@ KINDS = ["pulse", "rising", "falling", "level"]
 OFFSETS = list(range(-4, 6))
 
 
+SEEDED_SCALE = {"quick": 8, "thorough": 8}      # multiplies the run counts of the sampled families in plan()
+ENUMERATED = ('sweep',)       # families whose size is the size of an enumeration
+
 def plan(tier):
     if tier == "quick":
         return [("ev", 150), ("sweep", len(KINDS) * len(OFFSETS) * 2), ("shared", 20)]
